@@ -9,7 +9,9 @@ difference raises ``SimplifyChangedValue`` carrying a report.  The internal rewr
 (``flatten_expr``, ``distribute_product``, ``distribute_quotient``, ``sum_literals``, ``mul_literals``,
 ``div_literals``, ``collect_coefficients``, ``separate_coefficients`` and the ``SimplifyMapper.map_*`` methods) are wrapped by thin
 recorders that are switched on only while ``attribute()`` replays a failing call: the first step whose output
-value differs from its input value names the mechanism (``simplify:<step>:<category>``).
+value differs from its input value names the mechanism (``simplify:<step>:<category>``); the category says
+whether the step is wrong even over the rationals (``algebra``) or only under Fortran typing (``int-division``,
+``creates-int-division``, ``real-type-lost``).
 """
 import functools
 import sys
@@ -261,10 +263,14 @@ def attribute(expr, flags, envs):
             continue
         rep = compare(inp, out, envs)
         if rep is not None:
-            cat = ('int-division' if rep.get('int_division_in_input') else
-                   ('creates-int-division' if rep.get('int_division_in_result') else 'value'))
+            if not _exact_preserved(inp, out, envs):
+                cat = 'algebra'            # wrong even over the rationals (dropped factor, sign, wrong constant)
+            else:                          # algebraically valid rewrite, wrong under Fortran typing rules
+                cat = ('int-division' if rep.get('int_division_in_input') else
+                       ('creates-int-division' if rep.get('int_division_in_result') else 'value'))
             step = name
-            if name.startswith('map_') and first_kind is not None and name not in ('map_power', 'map_comparison'):
+            if cat != 'algebra' and name.startswith('map_') and first_kind is not None \
+                    and name not in ('map_power', 'map_comparison'):
                 step, cat = first_kind[0], 'real-type-lost'
                 rep = dict(rep, type_lost_at={'step': first_kind[0], 'input': _r(first_kind[1]),
                                               'output': _r(first_kind[2])})
@@ -275,6 +281,17 @@ def attribute(expr, flags, envs):
         if first_kind is None and _kind_lost(inp, out, envs):
             first_kind = (name, inp, out)
     return 'simplify:unattributed:value', None
+
+
+def _exact_preserved(inp, out, envs):
+    """True if the step preserves the value over the rationals (exact division) at every valuation."""
+    for env in envs:
+        try:
+            if not se.exact_agree(se.evaluate_exact(inp, env), se.evaluate_exact(out, env)):
+                return False
+        except se.Undefined:
+            continue
+    return True
 
 
 def _kind_lost(inp, out, envs):
